@@ -365,7 +365,7 @@ def exHistMat : List Op :=
 
 /-- the chain is legal for the repaired tree (hence for consensus: `spentBefore` is vacuous there) … -/
 theorem exHistMat_wf : WFops repaired [] exHistMat := by
-  simp [exHistMat, exPay, WFops, wfStep, nextStk, specOf, specApply, ids, repaired]
+  simp [exHistMat, exPay, WFops, wfStep, nextStk, repaired]
   refine ⟨⟨?_, ?_, ?_, ?_, ?_, ?_, ?_, ?_, ?_, ?_⟩, ⟨?_, ?_, ?_, ?_, ?_, ?_, ?_, ?_, ?_, ?_⟩, ⟨?_, ?_, ?_, ?_, ?_, ?_, ?_, ?_, ?_, ?_⟩, ⟨?_, ?_, ?_, ?_, ?_, ?_, ?_, ?_, ?_, ?_⟩⟩ <;>
     simp [specOf, specApply, ids]
 
@@ -504,7 +504,7 @@ def exHist : List Op :=
   [.apply ⟨0, 10, [], [], []⟩, .apply exA, .apply exB, .revert exB, .apply exB', .apply ⟨3, 23, [], [], []⟩]
 
 example : WFops asFound [] exHist := by
-  simp [exHist, exA, exB, exB', WFops, wfStep, nextStk, specOf, specApply, ids, asFound]
+  simp [exHist, exA, exB, exB', WFops, wfStep, nextStk, asFound]
   refine ⟨⟨?_, ?_, ?_, ?_, ?_, ?_, ?_, ?_, ?_, ?_⟩, ⟨?_, ?_, ?_, ?_, ?_, ?_, ?_, ?_, ?_, ?_⟩, ⟨?_, ?_, ?_, ?_, ?_, ?_, ?_, ?_, ?_, ?_⟩, ⟨?_, ?_, ?_, ?_, ?_, ?_, ?_, ?_, ?_, ?_⟩, ⟨?_, ?_, ?_, ?_, ?_, ?_, ?_, ?_, ?_, ?_⟩⟩ <;>
     simp [specOf, specApply, ids]
 
